@@ -152,3 +152,21 @@ MUTANTS += [
     dict(prop="C01", name="model run version not loaded", file="io/aoef/model_run.py", old="            **dict(prediction_set),\n            name=obj.name,\n            version=obj.version,", new="            **dict(prediction_set),\n            name=obj.name,"),
     dict(prop="C02", name="dispatch: annotation_set row before annotation_project", file="io/aoef/__init__.py", old='    ("evaluation", data.Evaluation, EvaluationAdapter),\n', new='    ("evaluation", data.Evaluation, EvaluationAdapter),\n    ("annotation_set", data.AnnotationSet, AnnotationSetAdapter),\n', expect="caught"),
 ]
+AD = "arrays/dimensions.py"
+MUTANTS += [
+    dict(prop="C16", name="trailing element compared with stop", file=AD, old="    if coords[-1] >= stop - step / 2:", new="    if coords[-1] >= stop + step / 2:"),
+    dict(prop="C16", name="step attribute stores 2*step", file=AD, old="            DimAttrs.step.value: step,\n            **attrs,\n        },\n    )\n\n\ndef create_time_range", new="            DimAttrs.step.value: 2 * step,\n            **attrs,\n        },\n    )\n\n\ndef create_time_range"),
+    dict(prop="C16", name="time range step = samplerate", file=AD, old="        step = 1.0 / samplerate", new="        step = samplerate / 1.0"),
+    dict(prop="C16", name="coord index off by one", file=AD, old="    return index - 1", new="    return index"),
+    dict(prop="C16", name="coord index lower clamp returns -1", file=AD, old="        if value < start:\n            return 0", new="        if value < start:\n            return -1"),
+    dict(prop="C16", name="size-derived step uses stop only", file=AD, old="        step = (stop - start) / size", new="        step = stop / size"),
+]
+AO = "arrays/operations.py"
+MUTANTS += [
+    dict(prop="C17", name="extend_dim_width float arange (original defect)", file=AO, old="        new_coords = (\n            current_end + step * np.arange(1, extra_width + 1)\n        ).astype(coords.dtype)", new="        new_coords = np.arange(current_end + step, current_end + step + extra_width * step, step, dtype=coords.dtype)"),
+    dict(prop="C17", name="centre crop starts one late", file=AO, old="        start = max(0, array.sizes[dim] // 2 - width // 2)", new="        start = max(0, array.sizes[dim] // 2 - width // 2 + 1)"),
+    dict(prop="C17", name="end extension places new cells after", file=AO, old="        coords = np.concatenate([new_coords, coords])\n\n    elif position == \"center\":", new="        coords = np.concatenate([coords, new_coords])\n\n    elif position == \"center\":"),
+    dict(prop="C17", name="crop open right end becomes closed", file=AO, old="    if not right_closed:\n        slice_end = stop - eps", new="    if not right_closed:\n        slice_end = stop + eps"),
+    dict(prop="C17", name="adjust accepts width 0", file=AO, old="    if width < 1:", new="    if width < 0:"),
+    dict(prop="C17", name="extend_dim open end not shrunk (original defect)", file=AO, old="    if right_closed:\n        stop += eps\n    else:\n        stop -= eps\n", new="    if right_closed:\n        stop += eps\n"),
+]
